@@ -25,6 +25,8 @@ pub enum DecorEdit {
     TruthUlp(u8),
     BudgetUlp(u8),
     Kind(u8),
+    /// move a fixed time by one (near-miss stamps: at large magnitudes only the last digit differs)
+    StampStep(bool),
 }
 
 #[derive(Clone, Debug, Serialize, Deserialize)]
@@ -155,6 +157,13 @@ pub fn apply_decor(v: &ND, e: &DecorEdit) -> ND {
         DecorEdit::Stamp(st) => {
             if let Some(s) = sen(&mut out) {
                 s.stamp = if s.stamp == *st { St::Fixed(12345) } else { *st };
+            }
+        }
+        DecorEdit::StampStep(up) => {
+            if let Some(s) = sen(&mut out) {
+                if let St::Fixed(t) = s.stamp {
+                    s.stamp = St::Fixed(if (*up && t < isize::MAX) || t == isize::MIN { t + 1 } else { t - 1 });
+                }
             }
         }
         DecorEdit::TruthLen(n) => {
@@ -408,7 +417,8 @@ pub fn check_table(sh: &Shared, _c: &u8) -> Check {
 
 fn decor() -> BoxedStrategy<DecorEdit> {
     prop_oneof![
-        40 => Just(DecorEdit::None),
+        34 => Just(DecorEdit::None),
+        6 => any::<bool>().prop_map(DecorEdit::StampStep),
         10 => any::<u8>().prop_map(DecorEdit::Punct),
         10 => gen::stamp().prop_map(DecorEdit::Stamp),
         8 => any::<u8>().prop_map(DecorEdit::TruthLen),
